@@ -1066,6 +1066,28 @@ fn oracle_c10(o: &mut Out, id: &str, ops: &[Op], fresh: Uuid) {
     if let Ok((alt, _)) = build_ops(&ops.iter().enumerate().filter(|(i, _)| i % 3 != 1).map(|(i, x)| (x.0, x.1, x.2.iter().map(|v| v.wrapping_add(i as i32 * 77 - 5)).collect())).collect::<Vec<Op>>()) {
         bases.push(alt);
     }
+    // the readers replace whatever their target held before: read S into a Snap that holds another snapshot
+    for (bi, base) in bases.iter().enumerate() {
+        if let Ok(Some(ints)) = guard(|| snap_ints(&s)) {
+            let mut t = base.clone();
+            let mut w = vec![];
+            let r = guard(|| t.read_from_ints(&mut w, &ints));
+            o.check(matches!(r, Ok(Ok(()))) && w.is_empty(), "-", id, || format!("read_from_ints(write_to_ints(S)) into a used Snap (base {}) = {:?} warnings {}", bi, r, warn_txt(&w)));
+            if matches!(r, Ok(Ok(()))) {
+                obs_equal(o, id, "after the integer wire form, read into a used Snap", &s, &t, &probes);
+            }
+        }
+        if let Ok(Some(bytes)) = guard(|| snap_bytes(&s)) {
+            let mut t = base.clone();
+            let mut w = vec![];
+            let mut scratch = vec![1, 2, 3];
+            let r = guard(|| t.read(&mut w, &mut scratch, &bytes));
+            o.check(matches!(r, Ok(Ok(()))) && w.is_empty(), "-", id, || format!("read(write(S)) into a used Snap (base {}) = {:?} warnings {}", bi, r, warn_txt(&w)));
+            if matches!(r, Ok(Ok(()))) {
+                obs_equal(o, id, "after the byte wire form, read into a used Snap", &s, &t, &probes);
+            }
+        }
+    }
     for (bi, base) in bases.iter().enumerate() {
         let mut d = Delta::new();
         // K09 (an item keeps its key and changes its length) is outside C10's delta clause
